@@ -69,6 +69,8 @@ ASSUMPTIONS = [
     "top-level package inside its own __init__ (`import pkg.x`, or the package re-exported under another name by a sub-module and imported "
     "back: a self-reference, which the inspector drops by design as a cyclic member), wildcard imports "
     "from package __init__ modules",
+    "chained targets `self.<member>.<attr> = ...` in __init__ (through a nested class, method or property defined before) bind no member "
+    "for either agent and are generated; "
     "names only assigned as self.x in __init__ are removed from the static side; dunder names are compared only when the source binds them",
     "parameter defaults are literals or module-level sentinels (`object()`, an instance of a local marker class); only required-ness is compared",
     "method flavour (staticmethod/classmethod/property/cached) is read from labels both agents spell identically; other labels, "
